@@ -312,6 +312,38 @@ fn run(ctx: &mut Ctx) {
             }
         }
     }
+    // every specified tag type in the generic header, every content length 0..=40 (a size that is "corrected" for one
+    // kind), and contents that begin like the header itself (type word, then a size word)
+    ctx.bound("new_boxed_header_types", "generic TagHeader with each specified type 0..=21 and 0x1337 x content lengths 0..=40 in one slice; contents whose first words are (the header's type, a size word in {content length, content length + 8, 0, 8}) in one slice and split behind the first 8 bytes");
+    for ty in (0u32..=21).chain([0x1337]) {
+        for n in 0..=40usize {
+            let content: Vec<u8> = (0..n).map(|i| marker(i, 64)).collect();
+            let describe = || J::obj().set("part", "new_boxed_header_types").set("type", ty).set("content_len", n);
+            ctx.leaf(describe, |ctx| {
+                ctx.state_direct();
+                ctx.nontrivial();
+                let none = |_: &[u8]| None;
+                boxed_case::<DynSizedStructure<TagHeader>>(ctx, "TagHeader(any type)", 8, 4, || TagHeader::new(TagType::from(ty), 0), &content, &[n], &none);
+            });
+        }
+        for n in [8usize, 16, 24, 32] {
+            for (si, sz) in [n as u32, n as u32 + 8, 0, 8].into_iter().enumerate() {
+                for split_after_8 in [false, true] {
+                    let mut content: Vec<u8> = (0..n).map(|i| marker(i, 62)).collect();
+                    content[..4].copy_from_slice(&ty.to_le_bytes());
+                    content[4..8].copy_from_slice(&sz.to_le_bytes());
+                    let split: Vec<usize> = if split_after_8 && n > 8 { vec![8, n - 8] } else { vec![n] };
+                    let describe = || J::obj().set("part", "new_boxed_header_types").set("type", ty).set("content_len", n).set("content_starts_like_a_header_with_size", sz).set("variant", si).set("split", format!("{:?}", split));
+                    ctx.leaf(describe, |ctx| {
+                        ctx.state_direct();
+                        ctx.nontrivial();
+                        let none = |_: &[u8]| None;
+                        boxed_case::<DynSizedStructure<TagHeader>>(ctx, "TagHeader(any type)", 8, 4, || TagHeader::new(TagType::from(ty), 0), &content, &split, &none);
+                    });
+                }
+            }
+        }
+    }
     ctx.bound("new_boxed_large", "contents of 255..257, 1023..1025, 4087, 4088, 4095..4097, 65535..65537 and 2^20 bytes split at every pair of cut points from {0, 1, n/2, n-1, n}, all five header kinds");
     for n in [255usize, 256, 257, 1023, 1024, 1025, 4087, 4088, 4095, 4096, 4097, 65535, 65536, 65537, 1 << 20] {
         let content: Vec<u8> = (0..n).map(|i| marker(i, 67)).collect();
